@@ -15,6 +15,8 @@ From Coq Require Import List ZArith Bool Arith Lia.
 Import ListNotations.
 From QV Require Import Model.C12 Proofs.C12 Model.C12_mt Proofs.C12_mt.
 From QV Require Import Model.C12_mc Proofs.C12_mc Model.C12_sto Proofs.C12_sto.
+From QV Require Import Model.C12_nm Proofs.C12_nm.
+From QV Require Model.C15 Model.C15_nm.
 
 Section Props.
   Variables T S V N : Type.
@@ -227,7 +229,8 @@ Section Props.
       /\ (stores_states o (nops e) = true -> length (r_states _ _ _ _ r) = length tlist)
       /\ ((forall j t, fst (fst (snd (integrate j t))) = t) -> r_times _ _ _ _ r = tlist).
   Proof.
-    intros c o e m s0 tlist r H. destruct tlist as [|t0 rest]; [discriminate|].
+    intros c o e m s0 tlist r H. destruct tlist as [|t0 rest];
+      [exfalso; exact (solver_run_empty_not_ok T S V N expectQ expectE callF rho conv D IS prepare restore set_state integrate _ _ _ _ _ _ H)|].
     rewrite (solver_run_spec T S V N expectQ expectE callF rho conv D IS prepare restore set_state integrate _ _ _ _ _ _ _ _ H).
     assert (L : length (run_points s0 t0 rest) = length (t0 :: rest)).
     { unfold Proofs.C12.run_points. simpl. rewrite map_length, integ_run_length. reflexivity. }
@@ -261,14 +264,27 @@ Section Props.
 
   Theorem C12_run_errors :
     forall c o e m s0,
-      solver_run c o e m s0 [] = Raise IndexError
+      (* empty tlist: IndexError - except that the multi-trajectory skeleton
+         builds the result object first, so an unsupported e_op wins there *)
+      (c <> CStoch -> solver_run c o e m s0 [] = Raise IndexError)
+      /\ (forallb op_ok (map snd (e_ops_to_dict e)) = true ->
+          (use_m c o = true -> forallb op_ok m = true) ->
+          solver_run c o e m s0 [] = Raise IndexError)
+      /\ (forallb op_ok (map snd (e_ops_to_dict e)) = false ->
+          solver_run CStoch o e m s0 [] = Raise TypeError)
       /\ forall t0 rest,
            forallb op_ok (map snd (e_ops_to_dict e)) = false ->
            solver_run c o e m s0 (t0 :: rest) = Raise TypeError.
   Proof.
-    intros c o e m s0. split; [reflexivity|].
-    intros t0 rest Hb. unfold Model.C12.solver_run.
-    rewrite (new_result_bad_eop T S V N c o e m Hb). reflexivity.
+    intros c o e m s0. split; [|split; [|split]].
+    - intros Hc. rewrite solver_run_empty. destruct c; try reflexivity. contradiction.
+    - intros H1 H2. rewrite solver_run_empty. destruct c; try reflexivity.
+      rewrite (new_result_ok T S V N expectQ expectE callF rho conv CStoch o e m H1 H2).
+      reflexivity.
+    - intros Hb. rewrite solver_run_empty.
+      rewrite (new_result_bad_eop T S V N CStoch o e m Hb). reflexivity.
+    - intros t0 rest Hb. unfold Model.C12.solver_run.
+      rewrite (new_result_bad_eop T S V N c o e m Hb). reflexivity.
   Qed.
 
   (* stochastic trajectories: the first point carries no noise, every
@@ -287,7 +303,8 @@ Section Props.
            then Obj (map (fun _ => length tlist - 1) m, length tlist - 1, length tlist - 1)
            else PyNone.
   Proof.
-    intros o e m s0 tlist r Hn H. destruct tlist as [|t0 rest]; [discriminate|].
+    intros o e m s0 tlist r Hn H. destruct tlist as [|t0 rest];
+      [exfalso; exact (solver_run_empty_not_ok T S V N expectQ expectE callF rho conv D IS prepare restore set_state integrate _ _ _ _ _ _ H)|].
     rewrite (solver_run_spec T S V N expectQ expectE callF rho conv D IS prepare restore set_state integrate _ _ _ _ _ _ _ _ H).
     assert (L : length (run_points s0 t0 rest) = Datatypes.S (length rest)).
     { unfold Proofs.C12.run_points. simpl. rewrite map_length, integ_run_length. reflexivity. }
@@ -314,7 +331,8 @@ Section Props.
       /\ length (r_mexp _ _ _ _ r) = (if store_measurement o then length m else 0%nat)
       /\ forall row, In row (r_mexp _ _ _ _ r) -> length row = length (r_times _ _ _ _ r).
   Proof.
-    intros o e m s0 tlist r Hn H. destruct tlist as [|t0 rest]; [discriminate|].
+    intros o e m s0 tlist r Hn H. destruct tlist as [|t0 rest];
+      [exfalso; exact (solver_run_empty_not_ok T S V N expectQ expectE callF rho conv D IS prepare restore set_state integrate _ _ _ _ _ _ H)|].
     rewrite (solver_run_spec T S V N expectQ expectE callF rho conv D IS prepare restore set_state integrate _ _ _ _ _ _ _ _ H).
     assert (L : length (run_points s0 t0 rest) = Datatypes.S (length rest)).
     { unfold Proofs.C12.run_points. simpl. rewrite map_length, integ_run_length. reflexivity. }
@@ -634,6 +652,7 @@ Example C12_nonvacuous_stochastic_records :
   /\ measurement (c12_nv_straj SMOther false) = SRaise SValueError.
 Proof. vm_compute. repeat split; reflexivity. Qed.
 
+
 (* Historical note (qutip before commit 676e94e): `old_final_ado_state`
    returned self._final_state, i.e. the system density matrix rho(a) instead
    of the ADO state a, with store_ados, store_final_state and no stored
@@ -681,3 +700,207 @@ Example C12_nonvacuous_errors :
   x_new CResult c12_nv_opts (EList [{| o_kind := OBad; o_id := 0 |}]) [] = Raise TypeError
   /\ x_new CStoch c12_nv_opts ENone [{| o_kind := OBad; o_id := 0 |}] = Raise TypeError.
 Proof. split; vm_compute; reflexivity. Qed.
+
+(* =========================================================================
+   Trajectory-level run code of the Monte-Carlo solvers (Model/C12_nm.v):
+   MCSolver._run_one_traj (both branches) and
+   NonMarkovianMCSolver._run_one_traj, for every option valuation, e_ops
+   form, tlist, integrator, collapse record and martingale *)
+Section TrajProps.
+  Variables T S V N D W C M : Type.
+  Variable expectQ : Z -> S -> V.
+  Variable expectE : Z -> T -> S -> V.
+  Variable callF : Z -> T -> S -> V.
+  Variable rho : S -> S.
+  Variable conv : S -> T -> S.
+  Variable IS : Type.
+  Variable restore : D -> S.
+  Variable set_state : T -> D -> IS.
+  Variable integrate : IS -> T -> IS * (T * D * option N).
+  Variable zero_like : S -> S.
+  Variable collapses : D -> list T -> list C.
+  Variable wzero : W.
+  Variable wscale : W -> bool -> W.
+  Variable wone : W.
+  Variable mart : list C -> T -> M.
+
+  Local Notation adds := (adds T S V N expectQ expectE callF rho conv).
+  Local Notation mc_run :=
+    (mc_run_one_traj T S V N D W C M expectQ expectE callF rho conv IS restore set_state
+       integrate zero_like collapses wzero wscale wone).
+  Local Notation nm_run :=
+    (nm_run_one_traj T S V N D W C M expectQ expectE callF rho conv IS restore set_state
+       integrate zero_like collapses wzero wscale wone mart).
+  Local Notation run_pts := (run_pts T S N D IS restore set_state integrate zero_like).
+
+  (* the trajectory result is the Result obtained by adding one point per
+     requested time (so every add-history theorem above applies): the
+     restored initial data and the integrator outputs in the normal branch,
+     the zero state at every tlist[k] in the dark-state branch; the collapse
+     record is the integrator's (empty in the dark branch), the weight is
+     rescaled (0 in the dark branch); times = tlist *)
+  Theorem C12_mc_traj_result :
+    forall dark fl o e d0 tlist tr, mc_run dark fl o e d0 tlist = Ok tr ->
+      (exists r0, new_result T S V N CResult o e [] = Ok r0
+                  /\ tr_result _ _ _ _ _ _ _ tr = adds r0 (run_pts dark d0 tlist))
+      /\ length (r_times _ _ _ _ (tr_result _ _ _ _ _ _ _ tr)) = length tlist
+      /\ ((dark = false -> forall j t, fst (fst (snd (integrate j t))) = t) ->
+          r_times _ _ _ _ (tr_result _ _ _ _ _ _ _ tr) = tlist)
+      /\ tr_collapse _ _ _ _ _ _ _ tr = (if dark then [] else collapses d0 tlist)
+      /\ tr_weight _ _ _ _ _ _ _ tr = (if dark then wzero else wscale wone fl)
+      /\ tr_trace _ _ _ _ _ _ _ tr = None
+      /\ (dark = true -> forall p, In p (run_pts dark d0 tlist) ->
+                           snd (fst p) = zero_like (restore d0)).
+  Proof.
+    intros dark fl o e d0 tlist tr H.
+    destruct (mc_run_spec T S V N D W C M expectQ expectE callF rho conv IS restore set_state
+                integrate zero_like collapses wzero wscale wone dark fl o e d0 tlist tr H)
+      as (R & Cc & Ww & Tt & Ne).
+    split; [|split; [|split; [|split; [exact Cc|split; [exact Ww|split; [exact Tt|]]]]]].
+    - unfold Model.C12_nm.mc_run_one_traj in H.
+      destruct (new_result T S V N CResult o e []) as [r0|x] eqn:E.
+      + exists r0. split; [reflexivity|]. rewrite R.
+        symmetry. apply (adds_spec T S V N expectQ expectE callF rho conv _ _ _ _ _ _ E).
+      + destruct dark; [discriminate|]. unfold Model.C12_nm.base_run in H. rewrite E in H.
+        discriminate.
+    - rewrite R. unfold spec. cbn [r_times]. rewrite map_length.
+      apply run_pts_length. exact Ne.
+    - intros Ht. rewrite R. unfold spec. cbn [r_times]. apply run_pts_times; assumption.
+    - intros Hd p Hin. subst dark. unfold Proofs.C12_nm.run_pts, dark_points in Hin.
+      apply in_map_iff in Hin. destruct Hin as (t & Hp & _). subst p. reflexivity.
+  Qed.
+
+  (* nm_mcsolve: the trajectory's trace has one value per requested time and
+     entry k is the martingale at tlist[k], evaluated on the jump record the
+     martingale holds when the run returns.
+     Full intended statement: that record is this trajectory's own collapse
+     record.  Proved in the normal branch; in the dark-state branch the
+     integrator (which resets the martingale's record) is never called, and
+     the record is whatever was left by the code that ran before (`prev`) -
+     hence `_partial`.  (On the implementation a dark state requires a zero
+     rate shift on the whole interval, for which every recorded factor is 1;
+     no observable difference was found.) *)
+  Theorem C12_nm_traj_trace_aligned_partial :
+    forall prev dark fl o e d0 tlist tr, nm_run prev dark fl o e d0 tlist = Ok tr ->
+      exists l,
+        tr_trace _ _ _ _ _ _ _ tr = Some l
+        /\ length l = length tlist
+        /\ length l = length (r_times _ _ _ _ (tr_result _ _ _ _ _ _ _ tr))
+        /\ forall k t, nth_error tlist k = Some t ->
+             nth_error l k
+             = Some (mart (if dark then prev else tr_collapse _ _ _ _ _ _ _ tr) t).
+  Proof.
+    intros prev dark fl o e d0 tlist tr H.
+    destruct (nm_run_spec T S V N D W C M expectQ expectE callF rho conv IS restore set_state
+                integrate zero_like collapses wzero wscale wone mart prev dark fl o e d0 tlist tr H)
+      as (tr0 & H0 & R & Cc & _ & Tt).
+    destruct (C12_mc_traj_result dark fl o e d0 tlist tr0 H0) as (_ & L & _).
+    exists (map (mart (if dark then prev else tr_collapse _ _ _ _ _ _ _ tr0)) tlist).
+    split; [exact Tt|]. split; [apply map_length|]. split; [rewrite map_length, R, L; reflexivity|].
+    intros k t Hk. rewrite Cc. apply map_nth_error. exact Hk.
+  Qed.
+
+  (* errors: an unsupported e_op (TypeError) is detected before the time
+     list is read; an empty tlist raises IndexError in the normal branch and
+     gives an empty result in the dark-state branch *)
+  Theorem C12_traj_run_errors :
+    forall fl o e d0 tlist,
+      (forallb op_ok (map snd (e_ops_to_dict e)) = false ->
+         forall dark, mc_run dark fl o e d0 tlist = Raise TypeError)
+      /\ (forallb op_ok (map snd (e_ops_to_dict e)) = true ->
+          mc_run false fl o e d0 [] = Raise IndexError
+          /\ exists tr, mc_run true fl o e d0 [] = Ok tr
+                        /\ r_times _ _ _ _ (tr_result _ _ _ _ _ _ _ tr) = []).
+  Proof.
+    intros fl o e d0 tlist. split.
+    - intros Hb dark. unfold Model.C12_nm.mc_run_one_traj, Model.C12_nm.base_run.
+      rewrite (new_result_bad_eop T S V N CResult o e [] Hb). destruct dark; reflexivity.
+    - intros Hk.
+      pose proof (new_result_ok T S V N expectQ expectE callF rho conv CResult o e [] Hk
+                    (fun U => ltac:(discriminate))) as E.
+      split.
+      + unfold Model.C12_nm.mc_run_one_traj, Model.C12_nm.base_run. rewrite E. reflexivity.
+      + unfold Model.C12_nm.mc_run_one_traj. rewrite E. eexists. split; reflexivity.
+  Qed.
+End TrajProps.
+Print Assumptions C12_mc_traj_result.
+Print Assumptions C12_nm_traj_trace_aligned_partial.
+Print Assumptions C12_traj_run_errors.
+
+Example C12_nonvacuous_traj_runs :
+  (exists v, x_nm_run true false true c12_nv_opts c12_nv_eops 5 [0; 1; 2]%Z
+               [(1, 21, None); (2, 22, None)]%Z [7; 9]%Z [3]%Z = Ok v)
+  /\ (exists v, x_nm_run true true false c12_nv_opts c12_nv_eops 5 [0; 1; 2]%Z [] [7]%Z [3; 4]%Z
+                = Ok v)
+  /\ x_nm_run false false false c12_nv_opts c12_nv_eops 5 [] [] [] [] = Raise IndexError.
+Proof. split; [eexists; vm_compute; reflexivity|split; [eexists; vm_compute; reflexivity|]]. vm_compute. reflexivity. Qed.
+
+(* composition with the NmmcResult model of C15 (Model/C15_nm.v): with
+   keep_runs_results, runs_trace lists the traces of the sampled trajectories
+   in the order they were added (deterministic ones are not listed); so when
+   trajectory i's trace is [martingale_i(t) for t in tlist], runs_trace[i][k]
+   is the martingale of trajectory i at tlist[k] *)
+Theorem C12_nm_runs_trace_aligned : forall keep evs,
+  C15_nm.q_runs_trace (fold_left nm_step evs (C15_nm.nnew keep))
+  = (if keep then map C15_nm.n_tr (sampled evs) else [])
+  /\ forall (T : Type) (mart : nat -> T -> Qcanon.Qc) (tlist : list T),
+       keep = true ->
+       (forall i tj, nth_error (sampled evs) i = Some tj -> C15_nm.n_tr tj = map (mart i) tlist) ->
+       forall i tj k t, nth_error (sampled evs) i = Some tj -> nth_error tlist k = Some t ->
+         exists row, nth_error (C15_nm.q_runs_trace (fold_left nm_step evs (C15_nm.nnew keep))) i
+                     = Some row /\ nth_error row k = Some (mart i t).
+Proof.
+  intros keep evs. split; [apply nm_runs_trace|].
+  intros T mart tlist Hk Htr i tj k t Hi Ht. rewrite nm_runs_trace, Hk.
+  exists (C15_nm.n_tr tj). split; [apply map_nth_error; exact Hi|].
+  rewrite (Htr i tj Hi). apply map_nth_error. exact Ht.
+Qed.
+Print Assumptions C12_nm_runs_trace_aligned.
+
+(* MultiTrajResult.steady_state(N): the mean of the last N averaged states
+   (indices n-N .. n-1) for 0 < N <= n = len(times); of all of them for
+   N = 0 or N > n; None when no states are available *)
+Theorem C12_steady_state_window : forall (l : list Z) (N : Z),
+  ((0 < N <= Z.of_nat (length l))%Z ->
+     steady_state (length l) (Some l) N
+     = SSValue (Proofs.C12_nm.zsum (skipn (length l - Z.to_nat N) l)) N
+     /\ length (skipn (length l - Z.to_nat N) l) = Z.to_nat N
+     /\ forall j, (j < Z.to_nat N)%nat ->
+          nth j (skipn (length l - Z.to_nat N) l) 0%Z = nth (length l - Z.to_nat N + j) l 0%Z)
+  /\ (l <> [] -> (N = 0 \/ Z.of_nat (length l) < N)%Z ->
+      steady_state (length l) (Some l) N
+      = SSValue (Proofs.C12_nm.zsum l) (Z.of_nat (length l)))
+  /\ (forall nt, steady_state nt None N = SSNone).
+Proof.
+  intros l N. split; [|split; [apply steady_all|intros nt; apply steady_none]].
+  intros H. split; [apply steady_last_N; exact H|].
+  apply skipn_last_window. lia.
+Qed.
+Print Assumptions C12_steady_state_window.
+
+(* inputs outside the documented domain, as the code treats them: a negative
+   N is not rejected - the first |N| states are dropped and the sum is divided
+   by the negative N; with no times at all the division is by zero *)
+Theorem C12_steady_state_outside_domain : forall (nt : nat) (l : list Z) (N : Z),
+  ((N < 0)%Z -> steady_state nt (Some l) N
+               = SSValue (Proofs.C12_nm.zsum (skipn (Z.to_nat (- N)) l)) N)
+  /\ steady_state 0 (Some l) 0 = SSZeroDiv.
+Proof. intros nt l N. split; [apply steady_negative|apply steady_no_times]. Qed.
+Print Assumptions C12_steady_state_outside_domain.
+
+Example C12_nonvacuous_steady_state :
+  steady_state 4 (Some [1; 2; 3; 4]%Z) 2 = SSValue 7 2
+  /\ steady_state 4 (Some [1; 2; 3; 4]%Z) 0 = SSValue 10 4
+  /\ steady_state 4 (Some [1; 2; 3; 4]%Z) 9 = SSValue 10 4
+  /\ steady_state 4 (Some [1; 2; 3; 4]%Z) (-1) = SSValue 9 (-1)
+  /\ steady_state 4 None 2 = SSNone.
+Proof. vm_compute. repeat split; reflexivity. Qed.
+
+Example C12_nonvacuous_runs_trace :
+  let t1 := {| C15_nm.n_id := 1%Z; C15_nm.n_x := []; C15_nm.n_trx := [];
+               C15_nm.n_tr := [Qcanon.Q2Qc (QArith_base.Qmake 1 1); Qcanon.Q2Qc (QArith_base.Qmake 2 1)] |} in
+  let t2 := {| C15_nm.n_id := 2%Z; C15_nm.n_x := []; C15_nm.n_trx := [];
+               C15_nm.n_tr := [Qcanon.Q2Qc (QArith_base.Qmake 3 1); Qcanon.Q2Qc (QArith_base.Qmake 4 1)] |} in
+  sampled [NmAdd t1 (Qcanon.Q2Qc (QArith_base.Qmake 1 1)); NmDet t2 (Qcanon.Q2Qc (QArith_base.Qmake 1 1)); NmAdd t2 (Qcanon.Q2Qc (QArith_base.Qmake 1 1))] = [t1; t2].
+Proof. reflexivity. Qed.
+
